@@ -30,7 +30,8 @@ LEVEL_TEXT = ('Decides that two memory/storage accesses whose byte ranges or key
               'forwarding, dead-store and store-of-load elimination (simplify_memory) are examined by bounded refutation '
               'over access sequences of length <= 3 (quick) / 4 (thorough) against a reference memory model; '
               'unify_loads_instructions is examined the same way on sequences with at least two loads, byte stores included '
-              '(C02.j).')
+              '(C02.j).'
+              ' Added in seeding rounds 8-9: forwarding windows of five accesses (C02.h), unify_keccak_instructions on every pair of hashes (C02.k), and the ids under which access positions are published (C02.l), all by abstract evaluation on finite families.')
 EXPLANATION = ("Regions: access kinds {mstore, mstore8, mload, keccak256, sstore, sload}^2 (at least one write) x address "
                "class {constants with every difference d in [-70,70], same symbol, different symbols, symbol vs "
                "constant} x keccak length {0,1,2,31,32,33,64, symbolic}. Premise (checked): in the constant branch the "
